@@ -160,6 +160,8 @@ func deadField(class, op string, ain, ring1 bool) bool {
 	switch {
 	case class == "RCTSig.P.Ss" && strings.HasPrefix(op, "slice-append"): // surplus entries behind the ones the inputs index
 		return true
+	case class == "RCTSig.P.MGs" && ring1 && strings.HasPrefix(op, "slice-swap"): // only the number of entries is read on the ring-size-1 path
+		return true
 	case strings.HasPrefix(class, "RCTSig.RctSigBase.PseudoOuts"): // the prunable copy is the one used
 		return true
 	case strings.HasSuffix(class, ".SenderPK"), strings.HasSuffix(class, "OutPk[].Dest"):
